@@ -57,11 +57,16 @@ ValidEnc(e) == e.op = "ByEntropy" /\ EntLenOK(e.ent_len) /\ IsSupported(e.lang)
 Inv_C01(e) == /\ (ValidEnc(e) => NoCrash(e) /\ e.err.nil /\ e.out = Mnemonic(e.ent, e.lang))
               \* ... and stays that sentence: the harness re-inspects retained results after later calls
               /\ (e.op = "Recheck" /\ e.kind = "string" => e.same)
+              /\ e.op # "Crash"               \* the process died inside the library while entropies were being encoded
 
-Inv_C05(e) == ValidEnc(e) =>
-    LET toks == Tokens(e.out) IN
-    /\ e.err.nil /\ Len(toks) = WordCount(e.ent) /\ AllKnown(toks, e.lang)
-    /\ EntropyOfTokens(toks, e.lang) = e.ent
+Inv_C05(e) ==
+    /\ ValidEnc(e) =>
+            LET toks == Tokens(e.out) IN
+            /\ e.err.nil /\ Len(toks) = WordCount(e.ent) /\ AllKnown(toks, e.lang)
+            /\ EntropyOfTokens(toks, e.lang) = e.ent
+    \* ... and the sentence handed out keeps decoding to that entropy: it is still the same text after later calls
+    /\ (e.op = "Recheck" /\ e.kind = "string" => e.same)
+    /\ e.op # "Crash"
 
 \* words emitted are the golden list's words at the indices the bits select
 Inv_C08(e) ==
@@ -105,6 +110,8 @@ Inv_C15(e) ==
                 /\ \E t \in UnknownTokens(e.in, e.lang) : HasInfix(e.err.msg, t))
         /\ (d # {} => ~e.err.nil)
         /\ (e.err.nil => d = {})
+InvS_C15(e) == e.op = "Sweep" =>                \* a nil error only for valid sentences: of 2048 last words exactly the predicted ones
+    {e.accepted[i] : i \in 1..Len(e.accepted)} \subseteq SweepPredicted(e)
 InvR_C15(e) == e.op = "Recheck" /\ e.kind = "error" => e.same        \* ... and an error keeps saying what it said when it was returned
 
 Inv_C09(e) ==
@@ -116,7 +123,8 @@ Inv_C09(e) ==
       [] e.op = "Crash" -> FALSE                              \* the process died inside the library on an extreme size
       [] e.op = "NewMnemonic" ->
             IF ~BigOK(e.n) THEN e.out = <<>> /\ e.err.wordlen /\ delivered = <<>>
-            ELSE (ReadFullOK => e.err.nil /\ e.out # <<>>) /\ (e.err.nil => e.out # <<>>) /\ (~e.err.nil => e.out = <<>>)
+            ELSE /\ (ReadFullOK => e.err.nil /\ e.out # <<>>) /\ (e.err.nil => e.out # <<>>) /\ (~e.err.nil => e.out = <<>>)
+                 /\ (source # "os" /\ ~e.err.nil => lastErr # "")      \* "given a working source": it fails only if the source did
       [] OTHER -> TRUE
 
 \* calls that overlapped in time on one injected source: the harness's source attributes to each call the bytes
@@ -156,7 +164,8 @@ Inv_C14(e) == Has(e, "panicked") => NoCrash(e)
 Inv_C16(e) == /\ (e.op = "String" => NoCrash(e) /\ e.out = LangNameOf(e.n.neg, e.n.digits))
               /\ (e.op = "Recheck" /\ e.kind = "string" => e.same)        \* a name handed out keeps reading as that name
 
-SeedOK(e)  == e.seed = Seed(e.m, e.p) /\ e.len = 64 /\ ~e.aliased /\ (e.alias_checked => e.seed2 = e.seed)
+SeedOK(e)  == /\ e.seed = Seed(e.m, e.p) /\ e.len = 64 /\ ~e.aliased
+              /\ (e.alias_checked => e.seed2 = e.seed /\ (Has(e, "seed3") => e.seed3 = e.seed))   \* derived again, also after the caller wiped the first result
 SeedF3(e)  == HasLongRun(e.m, e.p) /\ e.seed = StreamSafeSeed(e.m, e.p) /\ e.len = 64 /\ ~e.aliased
 Inv_C04(e) == e.op = "ToSeed" => NoCrash(e) /\ (SeedOK(e) \/ SeedF3(e))
 KF_C04(e)  == e.op = "ToSeed" /\ ~SeedOK(e) /\ SeedF3(e)
@@ -198,6 +207,9 @@ Inv_C13(e) ==
     /\ (Has(e, "in_same") => e.in_same)                      \* argument strings are not written through
     /\ (e.op = "Recheck" => e.same)
     /\ (e.op = "Buf" => e.before = e.after)
+    \* seeds handed out by separate calls share no storage, and what a caller does to its seed (wiping it) does not
+    \* change what the next call with the same arguments returns
+    /\ (e.op = "ToSeed" => ~e.aliased /\ (e.alias_checked => e.seed2 = e.seed /\ (Has(e, "seed3") => e.seed3 = e.seed)))
     /\ (MemoKey(e) /\ memo[MemoId(e)][1] = ArgsOf(e) => memo[MemoId(e)][2] = ResultOf(e))
     \* and the result is the one the arguments determine
     /\ (ValidEnc(e) => e.out = Mnemonic(e.ent, e.lang))
@@ -219,7 +231,9 @@ Inv_C12(e) ==
             /\ NoCrash(e)
             /\ (BigOK(e.n) /\ IsSupported(e.lang) => e.err.nil /\ Canonical(e.out, e.lang) /\ Len(Tokens(e.out)) = e.n.v)
             /\ (~BigOK(e.n) => e.out = <<>> /\ e.err.wordlen)
-      [] IsConc(e) -> (Has(e, "panicked") => NoCrash(e)) /\ Inv_C13(e)
+      [] IsConc(e) -> /\ (Has(e, "panicked") => NoCrash(e)) /\ Inv_C13(e)
+                      /\ (e.op = "ToSeed" => SeedOK(e) \/ SeedF3(e))             \* a seed derived while others derive theirs
+                      /\ (Has(e, "group") => Inv_C10(e) /\ Inv_C11(e))
       [] OTHER -> TRUE
 
 \* C17: the generator's output is the non-empty LF-separated lines of its input
@@ -240,7 +254,7 @@ Holds(p, e) ==
       [] p = "C04" -> Inv_C04(e) [] p = "C05" -> Inv_C05(e) [] p = "C06" -> Inv_C06(e)
       [] p = "C07" -> Inv_C07(e) [] p = "C08" -> Inv_C08(e) [] p = "C09" -> Inv_C09(e)
       [] p = "C10" -> Inv_C10(e) [] p = "C11" -> Inv_C11(e) [] p = "C13" -> Inv_C13(e)
-      [] p = "C14" -> Inv_C14(e) [] p = "C15" -> Inv_C15(e) /\ InvR_C15(e) [] p = "C16" -> Inv_C16(e)
+      [] p = "C14" -> Inv_C14(e) [] p = "C15" -> Inv_C15(e) /\ InvR_C15(e) /\ InvS_C15(e) [] p = "C16" -> Inv_C16(e)
       [] p = "C17" -> Inv_C17(e) [] p = "C12" -> Inv_C12(e) [] p = "XNFKD" -> Inv_XNFKD(e) [] OTHER -> TRUE
 KnownF(p, e) == (p = "C04" /\ KF_C04(e)) \/ (p = "C11" /\ KF_C11(e))
 
